@@ -90,6 +90,9 @@ func checkC08(p *Prog, r *Report) {
 	domainRule(p, r, "C08.R7", "the evapotranspiration routine", []string{"hermes.Evatra"}, 60)
 	// extraterrestrial radiation and day length feed the ET methods
 	solarClamps(p, r, "C08.R12")
+	// "no uptake below the groundwater table" is stated against the table the input gives: the series reader keeps
+	// exactly the requested id's lines and reads the file to its end (shared with C20.R6)
+	c20SeriesIdAs(p, r, "C08.R13")
 }
 
 func c08Caps(p *Prog, r *Report, x *Exec) {
